@@ -54,7 +54,7 @@ def run_check(pid, scratch):
 
 
 MECHANICAL = ['rename-locals', 'swap-ifelse', 'flatten-else', 'guard-clause', 'split-chain', 'demorgan', 'kw-to-pos',
-              'pos-to-kw', 'temporaries', 'joinpath-div', 'rename-locals+swap-ifelse+temporaries']
+              'pos-to-kw', 'temporaries', 'joinpath-div', 'rename-private', 'rename-private-params', 'rename-locals+swap-ifelse+temporaries']
 
 
 def one(pid, root, kind, name, patch):
